@@ -524,6 +524,27 @@ func (x *c18) churnScenario(r *rand.Rand, cfg *poll.Config, fail func(string, st
 		}
 		x.disconnect(s)
 	}
+	// one more listener that has stopped reading (small receive window), gets more than its socket takes, so that the
+	// handler sits in a blocked write, and then resets the connection: the failed write, too, must unregister it
+	if cn, err := net.DialTimeout("tcp", x.addr, 2*time.Second); err == nil {
+		if tc, ok := cn.(*net.TCPConn); ok {
+			_ = tc.SetReadBuffer(2048)
+		}
+		_, _ = cn.Write([]byte("GET /stallgrp/z HTTP/1.1\r\nHost: x\r\nAccept: text/event-stream\r\n\r\n"))
+		time.Sleep(50 * time.Millisecond)
+		big := []byte(`"` + strings.Repeat("0123456789abcdef", 4096) + `"`)
+		for k := 0; k < 60; k++ {
+			x.p.Enqueue(&aio.Message{Type: message.Type("invoke"), Data: []byte(`{"group":"stallgrp"}`), Body: big, Done: func(bool, error) {}})
+			time.Sleep(2 * time.Millisecond)
+		}
+		time.Sleep(50 * time.Millisecond)
+		if tc, ok := cn.(*net.TCPConn); ok {
+			_ = tc.SetLinger(0)
+		}
+		cn.Close()
+		groups = append(groups, "stallgrp")
+		x.c.rep.Hit("hang-up-phase.stalled-listener-reset")
+	}
 	settled := false
 	for t := 0; t < 160 && !settled; t++ {
 		if x.gauge() == 0 {
